@@ -2,20 +2,54 @@
 (* E1 + E2 for C17: TLC enumerates, per law, every triple (BASE, edits of THIS, edits of OTHER) within the bounds that
    satisfies the law's antecedent, checks the laws' internal consistency on every one (one initial state per case) and
    exports the case table.  Bounds: Bases = the BASE item sets, MaxSide = most edits of a side in laws 1-3,
-   MaxPair = most edits of a side in law 4, Flavours = {"ids"} or {"ids", "paths"}. *)
+   MaxPair / MaxSum = most edits of one side / of both sides together in law 4, Flavours = {"ids"}, {"paths"} or both.
+   CrossCheck = TRUE additionally recomputes the case set by brute force (all pairs of edit sets filtered with
+   WellFormed and the law's Antecedent) and demands equality - affordable on small bounds only. *)
 EXTENDS MergeLaws, FiniteSetsExt, SequencesExt, Json, IOUtils
-CONSTANTS Bases, MaxSide, MaxPair, Flavours
+CONSTANTS Bases, MaxSide, MaxPair, MaxSum, Flavours, CrossCheck
 
+Larger(a, b) == IF a > b THEN a ELSE b
 UpTo(K) == UNION {kSubset(k, AllEdits) : k \in 0..K}
-EditSets(S, K) == {D \in UpTo(K) : Applicable(BaseTree(S), D) /\ Valid(Apply(BaseTree(S), D))}
 Case(l, fl, S, T, O) == [law |-> l, fl |-> fl, base |-> SetToSeq(S), dT |-> SetToSeq(T), dO |-> SetToSeq(O)]
-Raw == UNION {LET ES == EditSets(S, MaxSide)  EP == EditSets(S, MaxPair) \ {{}} IN
-                  {Case("L1", fl, S, D, {}) : D \in ES, fl \in Flavours}
-             \cup {Case("L2", fl, S, {}, D) : D \in ES, fl \in Flavours}
-             \cup {Case("L3", fl, S, D, D)  : D \in ES \ {{}}, fl \in Flavours}
-             \cup {Case("L4", fl, S, T, O)  : T \in EP, O \in EP, fl \in Flavours}
-             : S \in Bases}
-Cases == {c \in Raw : WellFormed(c) /\ Antecedent(c.law, c)}
+Unique(P) == \A e, f \in P : e.p = f.p => e = f
+
+\* every edit set is applied once; x = [d edits, t tree, n size, ok no empty directory, fp file entries by path,
+\* pt paths touched]
+CasesFor(S) ==
+    LET b   == BaseTree(S)
+        bp  == FilesOnly(ByPath(b))
+        okb == NoEmptyDir(b)
+        A   == {x \in {[d |-> D, t |-> Apply(b, D)] : D \in {D \in UpTo(Larger(MaxSide, MaxPair)) : Applicable(b, D)}} :
+                    Valid(x.t)}
+        AI  == {[d |-> x.d, t |-> x.t, n |-> Cardinality(x.d), ok |-> okb /\ NoEmptyDir(x.t),
+                 fp |-> FilesOnly(ByPath(x.t)), pt |-> PathTouch(bp, FilesOnly(ByPath(x.t)))] : x \in A}
+        side == {x \in AI : x.n <= MaxSide}
+        pair == {x \in AI : x.n >= 1 /\ x.n <= MaxPair}
+        Fl(x) == {fl \in Flavours : fl = "ids" \/ x.ok}
+        pairs == {p \in pair \X pair : p[1].n + p[2].n <= MaxSum}
+        idsL4 == {p \in pairs : /\ Touch(p[1].d) \cap Touch(p[2].d) = {}
+                                 /\ Applicable(b, p[1].d \cup p[2].d) /\ Valid(Apply(b, p[1].d \cup p[2].d))}
+        pthL4 == {p \in pairs : /\ p[1].ok /\ p[2].ok /\ p[1].pt \cap p[2].pt = {}
+                                 /\ Unique(PathUnion(bp, p[1].fp, p[2].fp))}
+    IN       UNION {{Case("L1", fl, S, x.d, {}) : fl \in Fl(x)} : x \in side}
+        \cup UNION {{Case("L2", fl, S, {}, x.d) : fl \in Fl(x)} : x \in side}
+        \cup UNION {{Case("L3", fl, S, x.d, x.d) : fl \in Fl(x)} : x \in side \ {y \in side : y.n = 0}}
+        \cup (IF "ids" \in Flavours THEN {Case("L4", "ids", S, p[1].d, p[2].d) : p \in idsL4} ELSE {})
+        \cup (IF "paths" \in Flavours THEN {Case("L4", "paths", S, p[1].d, p[2].d) : p \in pthL4} ELSE {})
+Cases == UNION {CasesFor(S) : S \in Bases}
+
+\* brute force over all pairs of edit sets (CrossCheck)
+Brute == LET raw == UNION {LET es == UpTo(Larger(MaxSide, MaxPair)) IN
+                               {Case("L1", fl, S, D, {}) : D \in es, fl \in Flavours}
+                          \cup {Case("L2", fl, S, {}, D) : D \in es, fl \in Flavours}
+                          \cup {Case("L3", fl, S, D, D)  : D \in es \ {{}}, fl \in Flavours}
+                          \cup {Case("L4", fl, S, T, O)  : T \in es \ {{}}, O \in es \ {{}}, fl \in Flavours}
+                          : S \in Bases}
+             Size(k) == IF k.law = "L4" THEN /\ Len(k.dT) <= MaxPair /\ Len(k.dO) <= MaxPair
+                                             /\ Len(k.dT) + Len(k.dO) <= MaxSum
+                        ELSE Len(k.dT) <= MaxSide /\ Len(k.dO) <= MaxSide
+         IN {k \in raw : Size(k) /\ WellFormed(k) /\ Antecedent(k.law, k)}
+ASSUME CrossCheck => Cases = Brute
 
 VARIABLE c
 Init == c \in Cases
@@ -25,7 +59,7 @@ SpecObs(k) == LET r == SetToSeq(SpecTree(k)) IN
     [tree |-> r, disk |-> r, conflicts |-> <<>>, base |-> SetToSeq(ByPath(Base(k))),
      this |-> SetToSeq(ByPath(This(k))), other |-> SetToSeq(ByPath(Other(k)))]
 LawsHoldOnSpec ==
-    /\ c.law \in Holds(c)
+    /\ WellFormed(c) /\ c.law \in Holds(c)
     \* all laws that apply to one triple demand the same tree
     /\ \A n, m \in Holds(c) : Result(n, c) = Result(m, c)
     /\ Failed(c, SpecObs(c)) = {} /\ FixtureOk(c, SpecObs(c))
